@@ -264,6 +264,14 @@ func AccumLoop(ci ssa.CallInstruction) (acc *ssa.Phi, bound ssa.Value, buf ssa.V
 		if c, ok := ConstInt(L); ok && k == c {
 			return phi, L, sl.X, ""
 		}
+		// `for total < len(buf) { Read(buf[total:]) }`: the bound is the length of the very buffer
+		if lc, ok := stripValue(L).(*ssa.Call); ok && sl.High == nil {
+			if bi, isB := lc.Call.Value.(*ssa.Builtin); isB && bi.Name() == "len" && len(lc.Call.Args) == 1 {
+				if stripValue(lc.Call.Args[0]) == stripValue(sl.X) || sameExpr(lc.Call.Args[0], sl.X) {
+					return phi, L, sl.X, ""
+				}
+			}
+		}
 		return nil, nil, nil, fmt.Sprintf("loop bound %s is not the length of the buffer being filled", L)
 	}
 	return nil, nil, nil, "no loop guard `accumulated < size` dominates the read"
